@@ -44,7 +44,7 @@ def parse(attrs: str) -> bool:
     if m1 is None:
         return False
     # Prefixed empty placeholder group () to maintain group match indexes in m2.
-    r2 = re.compile(r'()(?:\s*)?(#[a-zA-Z][\w\-]*\s*)?(?:\s*)?(?:"([^"]+?)")?(?:\s*)?(\[.+])?(?:\s*)?([+-][ \w+-]+)?$')
+    r2 = re.compile(r'()\s*(?:(#[a-zA-Z][\w\-]*)\s*)?(?:"([^"]+?)"\s*)?(?:(\[.+])\s*)?([+-][ \w+-]+)?$')
     m2 = r2.match(text[m1.end():])
     if m2 is None:
         return False
